@@ -468,7 +468,7 @@ pub fn run(ctx: &Ctx) -> i32 {
     let max_arms = ctx.tier.pick(3usize, 5usize);
     let n_enum = enumerated(ctx, max_arms, true);
     ctx.put("enumerated_programs", json!(n_enum));
-    let n = ctx.tier.pick(3_000u64, 300_000u64);
+    let n = ctx.tier.pick(3_000u64, 3_000_000u64);
     let depth = ctx.tier.pick(3u32, 4u32);
     fw::par_for(n, 32, |i| {
         let mut rng = Rng::for_case(ctx.seed, 0xC08, i);
@@ -480,7 +480,7 @@ pub fn run(ctx: &Ctx) -> i32 {
         }
         check(ctx, &nodes, "random");
     });
-    macro_hosted(ctx, ctx.tier.pick(1_000u64, 100_000u64));
+    macro_hosted(ctx, ctx.tier.pick(1_000u64, 1_000_000u64));
     ctx.exhaustive.store(false, std::sync::atomic::Ordering::Relaxed);
     fw::finish(
         ctx,
